@@ -156,7 +156,7 @@ def gen_lean(units_path, mod):
 
 
 # ------------------------------------------------------------------ T2: layout table (C16)
-N_LAYOUT_CONFIGS = 13
+N_LAYOUT_CONFIGS = 15
 
 
 def layout_rows():
